@@ -540,6 +540,36 @@ struct Runner {
         v.insert(v.begin() + i, ET::arg(x, sc));
       }
       r.insert(r.begin() + i, ET::ref(x));
+    } else if (op == "pushself" && n == 2) {
+      // the argument is a reference to an element of the vector itself (std::vector must cope)
+      size_t j = num(k + 1);
+      if (j >= sz) {
+        return false;
+      }
+      if (j % 2) {
+        v.push_back(v[j]);
+      } else {
+        v.emplace_back(v[j]);
+      }
+      r.push_back(r[j]);
+    } else if (op == "insnself" && n == 4) {
+      size_t i = num(k + 1), c = num(k + 2), j = num(k + 3);
+      if (i > sz || j >= sz) {
+        return false;
+      }
+      v.insert(v.begin() + i, c, v[j]);
+      r.insert(r.begin() + i, c, r[j]);
+    } else if (op == "empself" && n == 3) {
+      size_t i = num(k + 1), j = num(k + 2);
+      if (i > sz || j >= sz) {
+        return false;
+      }
+      if (j % 2) {
+        v.emplace(v.begin() + i, v[j]);
+      } else {
+        v.insert(v.begin() + i, v[j]);
+      }
+      r.insert(r.begin() + i, r[j]);
     } else if (op == "erase" && n == 3) {
       size_t i = num(k + 1), j = num(k + 2);
       if (!(i <= j && j <= sz)) {
